@@ -354,6 +354,35 @@ theorem parse_lig {k ds : List Char} (ha : HeadAlpha k) (hne : ds ≠ []) (hd : 
   have hn' : ¬ digitsToNat ds < 1 := by omega
   rw [parseAnchor, parseChars_nonmark _ h1 h2, hl]; simp [checkE, checkNamed, hn']
 
+/-! #### the same for a contextual name `*k[.suffix]`, `*k_N[.suffix]`: the analysed name is `effName` -/
+
+theorem parseCore_nonmark (cs : List Char) (ctx : Bool) (h2 : (cs.head? == some '_') = false) :
+    parseCore cs ctx = .ok ⟨false, (ligSplit cs).1, (ligSplit cs).2, ctx⟩ := by
+  simp only [parseCore, h2, Bool.false_eq_true, if_false, Bool.false_and]
+
+theorem parseAnchor_eff (cs : List Char) : parseAnchor cs = checkE (parseCore (effName cs) (cs.head? == some '*')) := rfl
+
+/-- a name whose effective name is the plain key `k` is a base-side anchor of key `k` (contextual iff it starts with '*') -/
+theorem parse_base_eff {cs k : List Char} (he : effName cs = k) (hk : plainKey k = true) :
+    parseAnchor cs = .ok ⟨false, k, none, cs.head? == some '*'⟩ := by
+  rw [plainKey_iff] at hk
+  obtain ⟨ha, hno⟩ := hk
+  obtain ⟨_, h2, _, _⟩ := headAlpha_head ha
+  rcases ligSplit_cases k with ⟨hl, _⟩ | ⟨q, ds, hsd, _⟩
+  · have h3' : k.isEmpty = false := by
+      obtain ⟨c, r, e, _⟩ := ha; rw [e]; rfl
+    rw [parseAnchor_eff, he, parseCore_nonmark k _ h2, hl]; simp [checkE, checkNamed, h3']
+  · exact absurd ⟨q, ds, hsd⟩ hno
+
+theorem parse_lig_eff {cs k ds : List Char} (he : effName cs = k ++ '_' :: ds) (ha : HeadAlpha k) (hne : ds ≠ [])
+    (hd : ∀ c ∈ ds, c.isDigit = true) (hn : 1 ≤ digitsToNat ds) :
+    parseAnchor cs = .ok ⟨false, k, some (digitsToNat ds), cs.head? == some '*'⟩ := by
+  have hsd : SepDigits (k ++ '_' :: ds) k ds := ⟨hne, hd, rfl⟩
+  have hl := ligSplit_of_sepDigits hsd
+  obtain ⟨_, h2, _, _⟩ := headAlpha_head (headAlpha_append ha ('_' :: ds))
+  have hn' : ¬ digitsToNat ds < 1 := by omega
+  rw [parseAnchor_eff, he, parseCore_nonmark _ _ h2, hl]; simp [checkE, checkNamed, hn']
+
 /-- `_N` declares component N empty: no key, number N -/
 theorem parse_null {ds : List Char} (hne : ds ≠ []) (hd : ∀ c ∈ ds, c.isDigit = true) (hn : 1 ≤ digitsToNat ds) :
     parseAnchor ('_' :: ds) = .ok ⟨false, [], some (digitsToNat ds), false⟩ := by
@@ -382,5 +411,13 @@ theorem parse_zero_error {k ds : List Char} (ha : HeadAlpha k ∨ k = []) (hne :
     rw [parseAnchor, parseChars_nonmark _ h1 h2, hl]; simp [checkE, checkNamed, hn]
   · rw [nil_append] at hl ⊢
     rw [parseAnchor, parseChars_us, hl]; simp [checkE, checkNamed, hn]
+
+
+theorem parse_zero_error_eff {cs k ds : List Char} (he : effName cs = k ++ '_' :: ds) (ha : HeadAlpha k) (hne : ds ≠ [])
+    (hd : ∀ c ∈ ds, c.isDigit = true) (hn : digitsToNat ds = 0) : parseAnchor cs = .error .valueError := by
+  have hsd : SepDigits (k ++ '_' :: ds) k ds := ⟨hne, hd, rfl⟩
+  have hl := ligSplit_of_sepDigits hsd
+  obtain ⟨_, h2, _, _⟩ := headAlpha_head (headAlpha_append ha ('_' :: ds))
+  rw [parseAnchor_eff, he, parseCore_nonmark _ _ h2, hl]; simp [checkE, checkNamed, hn]
 
 end Ufo2ft.C06
